@@ -2,7 +2,7 @@
 From Coq Require Import String.
 From Coq Require Import List Bool Arith NArith.
 Import ListNotations.
-Require Import Str DriverIp DriverJun.
+Require Import Str DriverIp DriverJun DriverText.
 Local Open Scope N_scope.
 
 Definition run_case (fields : list str) : str :=
@@ -10,6 +10,8 @@ Definition run_case (fields : list str) : str :=
   | cmd :: _ =>
       if mem_str cmd [lit "base"; lit "ip4"; lit "ip6"] then run_ip fields
       else if mem_str cmd [lit "jenc"; lit "jdec"] then run_jun fields
+      else if str_eqb cmd (lit "pipe") then run_pipe fields
+      else if str_eqb cmd (lit "asr") then run_asr fields
       else lit "BADCMD"
   | [] => lit "BADCMD"
   end.
